@@ -743,6 +743,11 @@ pub struct WriteTxn<'a> {
 }
 
 impl<'a> WriteTxn<'a> {
+    /// Relationships created earlier in this transaction that start or end at `node`.
+    pub fn pending_edges_of(&self, node: InternalNodeId) -> Vec<crate::snapshot::EdgeKey> {
+        self.memtable.edges_touching(node)
+    }
+
     /// Whether `external_id` already names a node of the database or one created earlier in
     /// this transaction (such an id cannot be given to a new node).
     pub fn external_id_in_use(&self, external_id: ExternalId) -> bool {
